@@ -20,6 +20,14 @@ THEOREMS = ['Vakt.C08.add_existing_refused', 'Vakt.C08.add_fresh', 'Vakt.C08.upd
             'Vakt.C08B.observable_notify_last', 'Vakt.C08B.redis_serializer_failure',
             'Vakt.C08B.redis_failed_mutation_noop', 'Vakt.C08B.mongo_retrieve_all']
 EXTRA_IMPORTS = ['Props.C08Backends']
+# obligations over what was translated from /repo/vakt/storage/memory.py (and Storage._check_limit_and_offset) in this run: each
+# method of MemoryStorage, its dictionary made an explicit world value, leaves the dictionary and returns / raises what the concrete
+# model memStep says (lean/Gen/EquivMemory.lean); memStep refines the abstract store (memory_refines)
+EXTRA_BUILD = ['+Gen.EquivMemory']
+GEN_IMPORTS = ['Gen.EquivMemory']
+GEN_THEOREMS = ['Vakt.GenEquiv.gen_memory_add', 'Vakt.GenEquiv.gen_memory_update', 'Vakt.GenEquiv.gen_memory_delete',
+                'Vakt.GenEquiv.gen_memory_get', 'Vakt.GenEquiv.gen_memory_get_all', 'Vakt.GenEquiv.gen_memory_find',
+                'Vakt.GenEquiv.gen_check_limit']
 FLOOR = {'quick': 150, 'thorough': 2000}
 ASSUMPTIONS = ['Redis and MongoDB are in-process fakes of the client calls vakt makes (no servers in this sandbox); SQL is '
                'the real SQLAlchemy on SQLite with foreign_keys=ON',
